@@ -4032,3 +4032,11 @@ mod tests {
         assert!(r.expect("Search failed!").len() == 1);
     }
 }
+
+/// verif hook: load every stored entry (no filter, no index involved).
+#[cfg(feature = "verif-hooks")]
+pub fn verif_all_entries<T: BackendTransaction>(
+    be: &mut T,
+) -> Result<Vec<Arc<EntrySealedCommitted>>, OperationError> {
+    be.get_idlayer().get_identry(&IdList::AllIds)
+}
